@@ -852,3 +852,314 @@ pub(crate) fn api_xnlri_val(n: &api::Nlri) -> Val {
         _ => Val::L(vec![i(99)]),
     }
 }
+
+// ---------------------------------------------------------------- kind 9: typed PREFIX_SID / TUNNEL_ENCAP messages
+// PrefixSid: [tlv ...]; tlv = [0] | [3 | 4, [[key, [sub ...]] ...]] (3 = L3 service, 4 = L2 service);
+//   sub = [0] | [1, sid bytes, endpoint behaviour, [[key, [subsub ...]] ...]]; subsub = [0] | [1, six lengths ...]
+pub(crate) fn prefix_sid_api_of(v: &Val) -> api::PrefixSid {
+    let subsubs = |v: &Val| -> std::collections::HashMap<u32, api::SRv6SubSubTlVs> {
+        v.list()
+            .iter()
+            .map(|e| {
+                let tlvs = e
+                    .at(1)
+                    .list()
+                    .iter()
+                    .map(|s| api::SRv6SubSubTlv {
+                        tlv: if s.at(0).int() == 0 {
+                            None
+                        } else {
+                            Some(api::s_rv6_sub_sub_tlv::Tlv::Structure(api::SRv6StructureSubSubTlv {
+                                locator_block_length: s.at(1).u32(),
+                                locator_node_length: s.at(2).u32(),
+                                function_length: s.at(3).u32(),
+                                argument_length: s.at(4).u32(),
+                                transposition_length: s.at(5).u32(),
+                                transposition_offset: s.at(6).u32(),
+                            }))
+                        },
+                    })
+                    .collect();
+                (e.at(0).u32(), api::SRv6SubSubTlVs { tlvs })
+            })
+            .collect()
+    };
+    let subs = |v: &Val| -> std::collections::HashMap<u32, api::SRv6SubTlVs> {
+        v.list()
+            .iter()
+            .map(|e| {
+                let tlvs = e
+                    .at(1)
+                    .list()
+                    .iter()
+                    .map(|s| api::SRv6SubTlv {
+                        tlv: if s.at(0).int() == 0 {
+                            None
+                        } else {
+                            Some(api::s_rv6_sub_tlv::Tlv::Information(api::SRv6InformationSubTlv {
+                                sid: s.at(1).bytes(),
+                                flags: Some(api::SRv6SidFlags { flag_1: false }),
+                                endpoint_behavior: s.at(2).u32(),
+                                sub_sub_tlvs: subsubs(s.at(3)),
+                            }))
+                        },
+                    })
+                    .collect();
+                (e.at(0).u32(), api::SRv6SubTlVs { tlvs })
+            })
+            .collect()
+    };
+    let tlvs = v
+        .list()
+        .iter()
+        .map(|t| api::prefix_sid::Tlv {
+            tlv: match t.at(0).int() {
+                0 => None,
+                3 => Some(api::prefix_sid::tlv::Tlv::L3Service(api::SRv6L3ServiceTlv { sub_tlvs: subs(t.at(1)) })),
+                _ => Some(api::prefix_sid::tlv::Tlv::L2Service(api::SRv6L2ServiceTlv { sub_tlvs: subs(t.at(1)) })),
+            },
+        })
+        .collect();
+    api::PrefixSid { tlvs }
+}
+
+pub(crate) fn prefix_sid_api_val(p: &api::PrefixSid) -> Val {
+    fn sorted<T>(m: &std::collections::HashMap<u32, T>) -> Vec<(&u32, &T)> {
+        let mut v: Vec<_> = m.iter().collect();
+        v.sort_by_key(|e| *e.0);
+        v
+    }
+    let subsubs = |m: &std::collections::HashMap<u32, api::SRv6SubSubTlVs>| -> Val {
+        Val::L(
+            sorted(m)
+                .into_iter()
+                .map(|(k, t)| {
+                    Val::L(vec![
+                        Val::n(*k),
+                        Val::L(
+                            t.tlvs
+                                .iter()
+                                .map(|s| match &s.tlv {
+                                    None => Val::L(vec![i(0)]),
+                                    Some(api::s_rv6_sub_sub_tlv::Tlv::Structure(x)) => Val::L(vec![
+                                        i(1),
+                                        Val::n(x.locator_block_length),
+                                        Val::n(x.locator_node_length),
+                                        Val::n(x.function_length),
+                                        Val::n(x.argument_length),
+                                        Val::n(x.transposition_length),
+                                        Val::n(x.transposition_offset),
+                                    ]),
+                                })
+                                .collect(),
+                        ),
+                    ])
+                })
+                .collect(),
+        )
+    };
+    let subs = |m: &std::collections::HashMap<u32, api::SRv6SubTlVs>| -> Val {
+        Val::L(
+            sorted(m)
+                .into_iter()
+                .map(|(k, t)| {
+                    Val::L(vec![
+                        Val::n(*k),
+                        Val::L(
+                            t.tlvs
+                                .iter()
+                                .map(|s| match &s.tlv {
+                                    None => Val::L(vec![i(0)]),
+                                    Some(api::s_rv6_sub_tlv::Tlv::Information(x)) => Val::L(vec![
+                                        i(1),
+                                        Val::from_bytes(&x.sid),
+                                        Val::n(x.endpoint_behavior),
+                                        subsubs(&x.sub_sub_tlvs),
+                                    ]),
+                                })
+                                .collect(),
+                        ),
+                    ])
+                })
+                .collect(),
+        )
+    };
+    Val::L(
+        p.tlvs
+            .iter()
+            .map(|t| match &t.tlv {
+                None => Val::L(vec![i(0)]),
+                Some(api::prefix_sid::tlv::Tlv::L3Service(x)) => Val::L(vec![i(3), subs(&x.sub_tlvs)]),
+                Some(api::prefix_sid::tlv::Tlv::L2Service(x)) => Val::L(vec![i(4), subs(&x.sub_tlvs)]),
+            })
+            .collect(),
+    )
+}
+
+// TunnelEncap: [tlv ...]; tlv = [tunnel type, [sub ...]]; sub =
+//   [0] oneof missing | [1, flags, preference] | [2, 0] binding SID without a form | [2, 1, s, i, sid bytes] MPLS
+//   | [2, 2, s, i, b, sid bytes, ebs] SRv6 | [3, flags, enlp] | [4, priority] | [5, name] | [6, weight, [segment ...]]
+//   | [7, type, value] unknown | [8, colour] (stands for the sub-TLV kinds the converter does not know)
+//   ebs = [] | [behaviour, block, node, function, argument]; weight = [] | [flags, weight];
+//   segment = [0] | [1, fl, label] | [2, fl, sid bytes, ebs]; fl = [] | [v, a, s, b]
+fn ebs_of(v: &Val) -> Option<api::SRv6EndPointBehavior> {
+    let l = v.list();
+    if l.is_empty() {
+        None
+    } else {
+        Some(api::SRv6EndPointBehavior {
+            behavior: l[0].int() as i32,
+            block_len: l[1].u32(),
+            node_len: l[2].u32(),
+            func_len: l[3].u32(),
+            arg_len: l[4].u32(),
+        })
+    }
+}
+fn ebs_val(e: &Option<api::SRv6EndPointBehavior>) -> Val {
+    match e {
+        None => Val::L(vec![]),
+        Some(e) => Val::L(vec![
+            Val::n(e.behavior),
+            Val::n(e.block_len),
+            Val::n(e.node_len),
+            Val::n(e.func_len),
+            Val::n(e.arg_len),
+        ]),
+    }
+}
+fn segflags_of(v: &Val) -> Option<api::SegmentFlags> {
+    let l = v.list();
+    if l.is_empty() {
+        None
+    } else {
+        Some(api::SegmentFlags { v_flag: l[0].bool(), a_flag: l[1].bool(), s_flag: l[2].bool(), b_flag: l[3].bool() })
+    }
+}
+fn segflags_val(f: &Option<api::SegmentFlags>) -> Val {
+    match f {
+        None => Val::L(vec![]),
+        Some(f) => Val::L(vec![Val::b(f.v_flag), Val::b(f.a_flag), Val::b(f.s_flag), Val::b(f.b_flag)]),
+    }
+}
+
+pub(crate) fn tunnel_encap_api_of(v: &Val) -> api::TunnelEncapAttribute {
+    use api::tunnel_encap_sub_tlvsr_binding_sid::Bsid;
+    use api::tunnel_encap_sub_tlvsr_segment_list::{Segment, segment::Segment as Seg};
+    use api::tunnel_encap_tlv::tlv::Tlv as T;
+    let sub = |s: &Val| -> api::tunnel_encap_tlv::Tlv {
+        let l = s.list();
+        let tlv = match l[0].int() {
+            0 => None,
+            1 => Some(T::SrPreference(api::TunnelEncapSubTlvsrPreference { flags: l[1].u32(), preference: l[2].u32() })),
+            2 => Some(T::SrBindingSid(api::TunnelEncapSubTlvsrBindingSid {
+                bsid: match l[1].int() {
+                    0 => None,
+                    1 => Some(Bsid::SrBindingSid(api::SrBindingSid {
+                        s_flag: l[2].bool(),
+                        i_flag: l[3].bool(),
+                        sid: l[4].bytes(),
+                    })),
+                    _ => Some(Bsid::Srv6BindingSid(api::SRv6BindingSid {
+                        s_flag: l[2].bool(),
+                        i_flag: l[3].bool(),
+                        b_flag: l[4].bool(),
+                        sid: l[5].bytes(),
+                        endpoint_behavior_structure: ebs_of(&l[6]),
+                    })),
+                },
+            })),
+            3 => Some(T::SrEnlp(api::TunnelEncapSubTlvsrenlp { flags: l[1].u32(), enlp: l[2].int() as i32 })),
+            4 => Some(T::SrPriority(api::TunnelEncapSubTlvsrPriority { priority: l[1].u32() })),
+            5 => Some(T::SrCandidatePathName(api::TunnelEncapSubTlvsrCandidatePathName {
+                candidate_path_name: s_of(&l[1]),
+            })),
+            6 => Some(T::SrSegmentList(api::TunnelEncapSubTlvsrSegmentList {
+                weight: {
+                    let w = l[1].list();
+                    if w.is_empty() { None } else { Some(api::SrWeight { flags: w[0].u32(), weight: w[1].u32() }) }
+                },
+                segments: l[2]
+                    .list()
+                    .iter()
+                    .map(|g| Segment {
+                        segment: match g.at(0).int() {
+                            0 => None,
+                            1 => Some(Seg::A(api::SegmentTypeA { flags: segflags_of(g.at(1)), label: g.at(2).u32() })),
+                            _ => Some(Seg::B(api::SegmentTypeB {
+                                flags: segflags_of(g.at(1)),
+                                sid: g.at(2).bytes(),
+                                endpoint_behavior_structure: ebs_of(g.at(3)),
+                            })),
+                        },
+                    })
+                    .collect(),
+            })),
+            7 => Some(T::Unknown(api::TunnelEncapSubTlvUnknown { r#type: l[1].u32(), value: l[2].bytes() })),
+            _ => Some(T::Color(api::TunnelEncapSubTlvColor { color: l[1].u32() })),
+        };
+        api::tunnel_encap_tlv::Tlv { tlv }
+    };
+    api::TunnelEncapAttribute {
+        tlvs: v
+            .list()
+            .iter()
+            .map(|t| api::TunnelEncapTlv { r#type: t.at(0).u32(), tlvs: t.at(1).list().iter().map(sub).collect() })
+            .collect(),
+    }
+}
+
+pub(crate) fn tunnel_encap_api_val(a: &api::TunnelEncapAttribute) -> Val {
+    use api::tunnel_encap_sub_tlvsr_binding_sid::Bsid;
+    use api::tunnel_encap_sub_tlvsr_segment_list::segment::Segment as Seg;
+    use api::tunnel_encap_tlv::tlv::Tlv as T;
+    let sub = |s: &api::tunnel_encap_tlv::Tlv| -> Val {
+        match &s.tlv {
+            None => Val::L(vec![i(0)]),
+            Some(T::SrPreference(p)) => Val::L(vec![i(1), Val::n(p.flags), Val::n(p.preference)]),
+            Some(T::SrBindingSid(b)) => match &b.bsid {
+                None => Val::L(vec![i(2), i(0)]),
+                Some(Bsid::SrBindingSid(x)) => {
+                    Val::L(vec![i(2), i(1), Val::b(x.s_flag), Val::b(x.i_flag), Val::from_bytes(&x.sid)])
+                }
+                Some(Bsid::Srv6BindingSid(x)) => Val::L(vec![
+                    i(2),
+                    i(2),
+                    Val::b(x.s_flag),
+                    Val::b(x.i_flag),
+                    Val::b(x.b_flag),
+                    Val::from_bytes(&x.sid),
+                    ebs_val(&x.endpoint_behavior_structure),
+                ]),
+            },
+            Some(T::SrEnlp(e)) => Val::L(vec![i(3), Val::n(e.flags), Val::n(e.enlp)]),
+            Some(T::SrPriority(p)) => Val::L(vec![i(4), Val::n(p.priority)]),
+            Some(T::SrCandidatePathName(n)) => Val::L(vec![i(5), s_val(&n.candidate_path_name)]),
+            Some(T::SrSegmentList(sl)) => Val::L(vec![
+                i(6),
+                match &sl.weight {
+                    None => Val::L(vec![]),
+                    Some(w) => Val::L(vec![Val::n(w.flags), Val::n(w.weight)]),
+                },
+                Val::L(
+                    sl.segments
+                        .iter()
+                        .map(|g| match &g.segment {
+                            None => Val::L(vec![i(0)]),
+                            Some(Seg::A(a)) => Val::L(vec![i(1), segflags_val(&a.flags), Val::n(a.label)]),
+                            Some(Seg::B(b)) => Val::L(vec![
+                                i(2),
+                                segflags_val(&b.flags),
+                                Val::from_bytes(&b.sid),
+                                ebs_val(&b.endpoint_behavior_structure),
+                            ]),
+                        })
+                        .collect(),
+                ),
+            ]),
+            Some(T::Unknown(u)) => Val::L(vec![i(7), Val::n(u.r#type), Val::from_bytes(&u.value)]),
+            Some(_) => Val::L(vec![i(8), i(0)]),
+        }
+    };
+    Val::L(a.tlvs.iter().map(|t| Val::L(vec![Val::n(t.r#type), Val::L(t.tlvs.iter().map(sub).collect())])).collect())
+}
